@@ -41,7 +41,8 @@ LEVEL_TEXT = ("Every observation of the bounded family is executed through pyxel
               "single run. The caller's detector (including _memory, persistence trapped charge, filled buckets), pipeline "
               "(including model argument lists/dicts, disabled models) and readout are snapshotted structurally before and "
               "after every call (also failing calls) and must be identical. Calibration: the real ModelFittingDataTree is "
-              "obtained exactly as run_calibration wires it and evaluates 3 decision vectors in all 6 orders.")
+              "obtained exactly as run_calibration wires it and evaluates 3 decision vectors in all 6 orders."
+              " The scalar spaces are additionally executed through the legacy entry point pyxel.observation_mode; one variant runs the same Observation object twice around a change of the configured values; a clock-dependent model makes readout sweeps (with and without a start time) observable.")
 LEVEL_NOTE = ("Bounded: <=2 swept parameters, <=3 values, <=2 readout steps, 4 pipeline kinds, 4 caller histories, single "
               "faults. Dask execution under the synchronous scheduler only (thread schedules / completion orders are C07's "
               "subject and need the schedx engine). Trusted: the factory, vp.snapshot (reads raw attribute storage; ignores "
